@@ -162,7 +162,7 @@ void reg_st2tost2() {
     using T = TSC;
     st2tost2<N, T> r = change_basis(mk_A<N>(in[0]), mk_r(in[1]));
     return fl(r);
-  });
+  }, N == 3 ? 1 : 0);
   reg("A_push_forward", N, "At", 'A', [](const auto& in) {
     using T = TSC;
     st2tost2<N, T> r = push_forward(mk_A<N>(in[0]), mk_t<N>(in[1]));
